@@ -55,6 +55,12 @@ def make_programs(H, budget):
         root = sp.root()
 
         def body(ex):
+            try:
+                return body2(ex)
+            except PanicEx as p:
+                ex.check(False, "PANIC %s (%s.rs:%s)" % (p.msg, p.module, p.line), info=lambda m: TC.input_case(ex, m, root))
+
+        def body2(ex):
             it.call_depth = 0
             info = lambda m: TC.input_case(ex, m, root)
             try:
@@ -108,15 +114,25 @@ def make_programs(H, budget):
     return make
 
 
-def make_pairs(H, ka, kb):
+FORMERS = [c for c in I.ALL_HOLE_FREE if I.ARITY[c] > 0 and c not in ("Let2", "Let3")]
+FORMERS_QUICK = ["Lambda", "Pi", "Application", "Let1", "Negation", "Sum", "Quotient", "LessThan", "If"]
+PAIR_LEAVES = ["Variable", "IntegerLiteral"]
+
+
+def make_pairs(H, ka, kb, family=False, formers=None):
     alpha = [c for c in TC.HOLE_FREE if c not in ("Let2",)]
+    if family:
+        # every former over leaves, on both sides: equal and unequal operands under binders and in
+        # contexts; different formers fail at the root, so the cost is the same-former pairs
+        fs = formers or FORMERS
+        alpha = lambda n: fs if n.depth == 1 else PAIR_LEAVES
 
     def make():
-        ex, it = H.engine(node_budget=ka + kb - 2, solver_timeout_ms=120000)
+        ex, it = H.engine(node_budget=None if family else ka + kb - 2, solver_timeout_ms=120000)
         ex.fuel = 40000
         it.max_call_depth = 500
-        sa = c12.HoleSpace("a", ka, alpha, 0)
-        sb = c12.HoleSpace("b", kb, alpha, 0)
+        sa = c12.HoleSpace("a", 2 if family else ka, alpha, 0)
+        sb = c12.HoleSpace("b", 2 if family else kb, alpha, 0)
         a, b = sa.root(), sb.root()
 
         def body(ex):
@@ -124,12 +140,16 @@ def make_pairs(H, ka, kb):
             gam, ctx_ref = c12.gamma_options(ex)
             sa.scope = len(gam)
             sb.scope = len(gam)
-            info = lambda m: c12.case_of(ex, m, (a, b), gam)
+            before = list(gam)
+            info = lambda m: c12.case_of(ex, m, (a, b), before)
             try:
                 ab = it.truth(it.call("unifier", "unify", [a, b, gam]))
                 ba = it.truth(it.call("unifier", "unify", [b, a, gam]))
             except FuelExhausted:
                 ex.count("fuel")
+                return
+            if len(gam) != len(before):
+                ex.check(False, "B3.context-restored-by-unify", info=info)
                 return
             ex.check(ab == ba, "B1.unify-symmetric (ab=%s, ba=%s)" % (ab, ba), info=info)
             rc = RefChecker(ex, TC.concretize_ctor, fuel=1500)
@@ -140,6 +160,65 @@ def make_pairs(H, ka, kb):
                 return
             ex.count("equal" if same else "different")
             ex.check(ab == same, "B2.unify-iff-same-normal-form (unify=%s, reference=%s)" % (ab, same), info=info)
+            ex.check(len(gam) == len(before), "B3.context-restored-by-unify", info=info)
+        return ex, body, None
+    return make
+
+
+def make_group_programs(H, n):
+    """Closed groups of n leaf definitions with a variable as body: run, normalise, compare."""
+    def alpha(node):
+        if node.depth == 1:
+            return ["Let%d" % n]
+        if node.slot == 2 * n:
+            return ["Variable"]
+        return ["Unifier", "Integer"] if node.slot % 2 == 0 else ["IntegerLiteral", "Variable", "True"]
+
+    def make():
+        ex, it = H.engine(solver_timeout_ms=120000)
+        ex.fuel = 3000
+        it.max_call_depth = 600
+        sp = TC.ProgramSpace("p", 2, alpha, scope=0)
+        root = sp.root()
+
+        def body(ex):
+            try:
+                return body2(ex)
+            except PanicEx as p:
+                ex.check(False, "PANIC %s (%s.rs:%s)" % (p.msg, p.module, p.line), info=lambda m: TC.input_case(ex, m, root))
+
+        def body2(ex):
+            it.call_depth = 0
+            info = lambda m: TC.input_case(ex, m, root)
+            errs = VecV()
+            it.call("parser", "check_definitions", [none(), Str(""), root, 0, errs])
+            if len(errs):
+                ex.count("rejected:order")
+                return
+            try:
+                res, _, _ = TC.call_type_check(it, root)
+            except FuelExhausted:
+                ex.count("fuel")
+                return
+            if res.variant != "Ok":
+                ex.count("rejected")
+                return
+            e, ty = res.fields[0]
+            ex.count("accepted")
+            try:
+                ev = it.resolve(it.call("evaluator", "evaluate", [e]))
+                if ev.variant != "Ok":
+                    ex.count("stuck")
+                    return
+                v = lit_or_bool(ex, ev.fields[0])
+                n_ = lit_or_bool(ex, it.call("normalizer", "normalize_weak_head", [e, VecV()]))
+            except FuelExhausted:
+                ex.count("fuel")
+                return
+            if v is not None and v[0] == "lit":
+                ex.check(n_ is not None and n_[0] == "lit" and z_eq(n_[1], v[1]), "A1.normal-form-equals-value(int)", info=info)
+            elif v is not None and v[0] == "bool":
+                ex.check(n_ is not None and n_ == v, "A1.normal-form-equals-value(bool)", info=info)
         return ex, body, None
     return make
 
@@ -175,6 +254,9 @@ def confirm(H, label, case):
     shown = "unify(%s, %s) in a context of %d" % (T.show(case["a"]), T.show(case["b"]), len(case["defs_ctx"]))
     if label.startswith("B1"):
         return (u1.get("result") != u2.get("result")), "%s = %s, swapped = %s" % (shown, u1.get("result"), u2.get("result"))
+    if label.startswith("B3"):
+        n1, n2 = len(u1.get("defs_ctx", [])), len(u2.get("defs_ctx", []))
+        return (n1 != len(case["defs_ctx"]) or n2 != len(case["defs_ctx"])), "%s leaves a context of %d entries, swapped %d (was %d)" % (shown, n1, n2, len(case["defs_ctx"]))
     cx = ConcreteCtx()
     cell_objs = {}
     a = T.from_json(case["a"], case["cells"], cell_objs)
@@ -207,6 +289,8 @@ def main():
         c12.GAMMAS[:] = [0, 3]
     parts = [("accepted programs B(%d): value = normal form, unify with reducts" % budget, make_programs(H, budget)),
              ("hole-free pairs %d+%d: symmetry and agreement with normal forms" % pair, make_pairs(H, *pair)),
+             ("every former over leaves, both sides: symmetry, normal forms, context", make_pairs(H, 0, 0, family=True, formers=FORMERS_QUICK if quick else FORMERS)),
+             ("groups of 3 leaf definitions: value = normal form", make_group_programs(H, 3)),
              ("reflexivity, %d nodes" % (3 if quick else 5), c12.make_reflexive(H, 3 if quick else 5))]
     for name, mk in parts:
         t0 = time.time()
